@@ -3,7 +3,7 @@ import json, os
 from vlib import core
 
 THEOREMS = ["Props.C13." + t for t in [
-    "key_dispatch_table_sound",
+    "key_dispatch_table_sound", "zero_writer_table_sound",
     "precount_map", "precount_list_repaired", "precount_list_partial", "masked_write_wellformed_partial",
     "masked_write_restrict", "masked_read_restrict", "nil_mask_is_std_write", "nil_mask_is_std_read",
     "required_still_written", "nonrequired_filtered_absent_partial", "halfway"]]
